@@ -1656,9 +1656,12 @@ def simp_test_signext_inf(expr_s, expr):
     if -(1 << (base.size - 1)) <= tmp < (1 << (base.size - 1)):
         # Can trunc integer
         return ExprOp(expr.op, base, expr_s(cst[:base.size]))
-    if (tmp >= (1 << (base.size - 1)) or
-        tmp < -(1 << (base.size - 1)) ):
+    if tmp >= (1 << (base.size - 1)):
+        # Above every sign-extended value: always true
         return ExprInt(1, 1)
+    if tmp < -(1 << (base.size - 1)):
+        # Below every sign-extended value: always false
+        return ExprInt(0, 1)
     return expr
 
 
